@@ -202,8 +202,7 @@ class Job:
             return
         cmd = ['cbmc', '-I', os.path.join(VERIF, 'vp'), '-I', self.dir, '-I', os.path.join(VERIF, 'models'),
                os.path.join(self.dir, 'h.c')] + self.model_files() + ['--function', 'vp_entry', '--drop-unused-functions', '--show-loops']
-        if not os.path.exists(os.path.join(self.dir, 'vp_kf.h')):
-            self.write_kf({})
+        self.write_kf({})   # the driver rewrites it with the modes of each query
         loops = []
         for attempt in range(3):
             rc, out, err, _ = run(cmd, cwd=self.dir, timeout=300)
